@@ -22,7 +22,7 @@ flips it when the fix is applied to /repo.
 """
 from vlib import core
 
-GUARDS_FIXED = False
+GUARDS_FIXED = True
 
 # known defect of the unchanged tree, one key per boundary class (= the proposed guard
 # that would refuse the configuration; the class is computed by the proved model)
